@@ -4,14 +4,23 @@ from props.common import *
 FN = ['serialize.h: WriteCompactSize', 'serialize.h: ReadCompactSize', 'serialize.h: GetSizeOfCompactSize', 'serialize.h: MAX_SIZE']
 QUERIES = [Query('cs_write', 'harness', ULF.unit_compactsize, 'h_cs_write', unwind=20, timeout=600, functions=FN),
            Query('cs_read', 'harness', ULF.unit_compactsize, 'h_cs_read', unwind=20, timeout=600, functions=FN)]
+from props import units_fp as UFP
+FP = ['util/strencodings.cpp: ParseFixedPoint', 'util/strencodings.cpp: ProcessMantissaDigit', 'util/strencodings.h: IsDigit']
+QUERIES.append(Query('fixedpoint_reject', 'harness', UFP.unit_fixedpoint, 'h_fixedpoint_reject', unwind=24, timeout=600, functions=FP))
+for (a, b, tier) in ((1, 0, 'quick'), (1, 1, 'quick'), (2, 2, 'thorough'), (3, 2, 'thorough'), (1, 8, 'thorough')):
+    QUERIES.append(Query(f'fixedpoint_{a}_{b}', 'harness', UFP.unit_fixedpoint, 'h_fixedpoint', defines=[f'H_PF_INT={a}', f'H_PF_FRAC={b}'], unwind=24, timeout=6000, tier=tier, backend='kissat', functions=FP,
+                         bounded=f'amount strings with exactly {a} integer and {b} fractional digits (digits symbolic, optional sign); SAT cost grows steeply with the number of digits'))
+for (l1, l2) in ((3, 18), (18, 5), (1, 1)):
+    QUERIES.append(Query(f'parse_tx_amounts_{l1}_{l2}', 'harness', UFP.unit_parse_transaction, 'h_parse_tx_amounts', defines=[f'H_PT_L1={l1}', f'H_PT_L2={l2}'], unwind=44, timeout=900,
+                         functions=['instance.cpp: Instance::parse_transaction (amount list)'], bounded=f'two amounts of {l1} and {l2} characters (characters symbolic)'))
 META = {'level': 'proof', 'trusted_base': TRUSTED + ['stubs/ser_env.h: byte-buffer stream and little-endian ser_read/writedataN'],
  'assumptions': ASSUME_COMMON + [
-   "claimed: the compact-size codec leaves only (every uint64; every byte string of up to 12 bytes as input of the decoder)",
-   "not applicable: UnserializeTransaction / SerializeTransaction round trip, txid (double SHA-256), witness flag handling - the vector / prevector / CDataStream / SERIALIZE_METHODS template machinery is outside the C++ front end; ParseFixedPoint and parse_tx (std::string_view, repeated multiplication by ten) likewise",
+   "claimed: the compact-size codec (every uint64; every byte string of up to 12 bytes as input of the decoder) and the amount parser ParseFixedPoint(.., 8, ..) for the stated digit counts plus its rejection of malformed forms; the amount-list front end of Instance::parse_transaction (each amount substring reaches the parser unaltered, the transaction parser gets the text after the colon, zero padding to the input count) with the amount and transaction parsers as oracles",
+   "not applicable: UnserializeTransaction / SerializeTransaction round trip, txid (double SHA-256), witness flag handling - the vector / prevector / CDataStream / SERIALIZE_METHODS template machinery is outside the C++ front end; parse_tx / parse_transaction (strndup, std::string) likewise",
  ],
  'explanation': 'contracts of the real WriteCompactSize / ReadCompactSize / GetSizeOfCompactSize bodies over a byte-buffer stream'}
 MANIFEST = {
- 'text': 'Codec leaves only: for every uint64 the real WriteCompactSize emits the 1/3/5/9-byte form by magnitude with little-endian payload, GetSizeOfCompactSize agrees, and ReadCompactSize returns the value consuming exactly those bytes; for every input string the decoder rejects truncated, non-canonical (not shortest) and over-MAX_SIZE encodings and never partially accepts them.',
+ 'text': 'Codec and amount leaves only: for every uint64 the real WriteCompactSize emits the 1/3/5/9-byte form by magnitude with little-endian payload, GetSizeOfCompactSize agrees, and ReadCompactSize returns the value consuming exactly those bytes; for every input string the decoder rejects truncated, non-canonical (not shortest) and over-MAX_SIZE encodings and never partially accepts them. ParseFixedPoint converts decimal amounts to satoshis exactly for the stated digit counts and rejects malformed forms; the amount list of --tx hands every amount substring to it unaltered.',
  'note': 'Transaction (de)serialisation, txid and amount parsing are not applicable (template serialization framework, hashing, std::string_view arithmetic).',
  'technique': 'assume/assert contracts on the real compact-size function templates over a stub stream; CBMC, full 64-bit domain',
  'design_ref': 'DESIGN.md 6 (C13)'}
